@@ -926,6 +926,105 @@ def f():
     Cal.rebase(2000)
     b.BASE = 5
     return before, seen, a.BASE, b.BASE, Cal.BASE, Cal(3).BASE
+---
+from dataclasses import dataclass, field
+from typing import NamedTuple
+import enum
+@dataclass
+class _Acc:
+    total: float = 0.0
+    count: int = 0
+    items: list = field(default_factory=list)
+    def add(self, v):
+        self.total += v
+        self.count += 1
+        self.items.append(v)
+        return self
+    @property
+    def mean(self):
+        return self.total / self.count if self.count else float('nan')
+@dataclass(frozen=True)
+class _Key:
+    a: int
+    b: str = 'x'
+class _Pt(NamedTuple):
+    x: float
+    y: float = 0.0
+    def norm1(self):
+        return abs(self.x) + abs(self.y)
+class _Mode(enum.IntEnum):
+    MIN = 1
+    MAX = 2
+class _Color(enum.Enum):
+    RED = 'r'
+    BLUE = 'b'
+def f():
+    a = _Acc().add(2.0).add(4.0)
+    b = _Acc()
+    k1, k2 = _Key(1), _Key(1, 'x')
+    try:
+        k1.a = 5
+        frozen = 'assigned'
+    except AttributeError:
+        frozen = 'refused'
+    p = _Pt(3.0)
+    x, y = p
+    return (a.total, a.count, a.items, b.items, a.mean, a == _Acc(6.0, 2, [2.0, 4.0]), repr(k1), k1 == k2, hash(k1) == hash(k2), {k1: 1}[k2], frozen, p.norm1(), x, y, p._replace(y=2.0).y, p == (3.0, 0.0),
+            _Mode.MIN == 1, _Mode.MAX + 1, _Mode(2) is _Mode.MAX, _Mode.MIN.name, _Mode.MAX.value, [m.name for m in _Mode], _Mode['MIN'] is _Mode.MIN, sorted([_Mode.MAX, _Mode.MIN]) == [1, 2],
+            _Color.RED is _Color('r'), _Color.RED == 'r', _Color.BLUE.name, _Color.RED != _Color.BLUE, {_Color.RED: 1}[_Color.RED], isinstance(_Mode.MIN, int))
+---
+import functools
+class _Shape:
+    def __init__(self, n):
+        self.n = n
+class _Square(_Shape):
+    pass
+@functools.singledispatch
+def _describe(v):
+    return 'other'
+@_describe.register(int)
+def _(v):
+    return 'int %d' % v
+@_describe.register(str)
+def _(v):
+    return 'str ' + v
+@_describe.register(list)
+@_describe.register(tuple)
+def _(v):
+    return 'seq %d' % len(v)
+@_describe.register(_Shape)
+def _(v):
+    return 'shape %d' % v.n
+class _Box:
+    def __init__(self, inner):
+        self._inner = inner
+        self.own = 1
+    def __getattr__(self, name):
+        return getattr(self._inner, name)
+class _Walk:
+    def __init__(self, xs):
+        self.xs = xs
+    def __iter__(self):
+        for v in self.xs:
+            if v < 0:
+                return
+            yield v * 2
+    def pairs(self):
+        yield from zip(self.xs, self.xs[1:])
+def f():
+    b = _Box(_Shape(7))
+    return ([_describe(v) for v in (3, True, 'a', [1, 2], (1,), 2.5, None, _Shape(4), _Square(5))], b.own, b.n, list(_Walk([1, 2, -1, 5])), list(_Walk([1, 2, 3]).pairs()), hasattr(b, 'n'), hasattr(b, 'zz'))
+---
+def f():
+    class Local:
+        k = 3
+        def __init__(self, v):
+            self.v = v
+        def twice(self):
+            return 2 * self.v + self.k
+    def make(n):
+        return [Local(i) for i in range(n)]
+    return [o.twice() for o in make(3)], Local.k, isinstance(make(1)[0], Local)
 '''
 
 
